@@ -45,6 +45,23 @@ claim(
     "DESIGN.md §2 C18",
 )
 
+claim(
+    "C20",
+    "may-write least fixpoint over the resolved reference graph + guard-dominance walk "
+    "(dry_run / proceed) + def-use path provenance with a depth abstraction",
+    "Decides 'no file-system mutation of the sink inventory can execute when dry_run is true': every "
+    "write site in every function reachable from exmod is dominated by dry_run == False or forwards the "
+    "caller's dry_run into a callee that is checked the same way (complete for the inventory). Decides "
+    "the blacklist/whitelist gate dominance in exmod_single_folder. Necessary part of containment: every "
+    "write path is rooted at exmod's output_directory and never climbs above it (join +n / dirname -1 "
+    "abstraction, guard-sensitive).",
+    "Trusted: the sink inventory in sa/effects.py; third-party callees (find_packages, black) do not "
+    "write; import-system side effects (__pycache__ via find_spec) are outside the inventory. Not "
+    "decided: later path components being absolute or '..' (run-time strings); validity of generated "
+    "files; __all__ contents.",
+    "DESIGN.md §2 C20",
+)
+
 
 def main():
     """write MANIFEST.json"""
